@@ -13,6 +13,17 @@ import (
 // toolchain's reference decoder (independent of goom's decoder and of the Lean mini-ISA).  Memory is the
 // marker mem64(a) = ^a.  Output format equals the Lean driver's.
 func RunX86(bs []byte, from uint64, mode int) string {
+	res, _ := runX86(bs, from, mode, true)
+	return res
+}
+
+// RunX86Mem is RunX86 on bytes read from memory: the sequence ends with its first jump, whatever follows it in
+// `bs`; the second result is the number of bytes the sequence occupies.
+func RunX86Mem(bs []byte, from uint64) (string, int) {
+	return runX86(bs, from, 64, false)
+}
+
+func runX86(bs []byte, from uint64, mode int, exact bool) (string, int) {
 	pc := from
 	rdx := uint64(0xdddddddddddddddd)
 	if mode == 32 {
@@ -21,7 +32,7 @@ func RunX86(bs []byte, from uint64, mode int) string {
 	for off := 0; off < len(bs); {
 		ins, err := refx86.Decode(bs[off:], mode)
 		if err != nil {
-			return "undecodable"
+			return "undecodable", 0
 		}
 		next := pc + uint64(ins.Len)
 		switch ins.Op {
@@ -30,37 +41,45 @@ func RunX86(bs []byte, from uint64, mode int) string {
 			r, ok1 := ins.Args[0].(refx86.Reg)
 			imm, ok2 := ins.Args[1].(refx86.Imm)
 			if !ok1 || !ok2 || (mode == 64 && r != refx86.RDX) || (mode == 32 && r != refx86.EDX) {
-				return "undecodable"
+				return "undecodable", 0
 			}
 			rdx = uint64(imm)
 			if mode == 32 {
 				rdx &= 0xffffffff
 			}
 		case refx86.JMP:
-			if off+ins.Len != len(bs) {
-				return "undecodable"
+			if m, isMem := ins.Args[0].(refx86.Mem); exact && off+ins.Len != len(bs) && !(isMem && m.Base == refx86.RIP) {
+				return "undecodable", 0
 			}
 			switch a := ins.Args[0].(type) {
 			case refx86.Rel:
-				return fmt.Sprintf("rip=%#x rdx=%#x", next+uint64(int64(a)), rdx)
+				return fmt.Sprintf("rip=%#x rdx=%#x", next+uint64(int64(a)), rdx), off + ins.Len
 			case refx86.Mem:
+				if mode == 64 && a.Base == refx86.RIP && a.Index == 0 && a.Disp == 0 && a.Segment == 0 {
+					// JMP [RIP+0]: the pointer is the quadword right behind the instruction, part of the sequence itself
+					q := off + ins.Len
+					if len(bs) < q+8 || (exact && len(bs) != q+8) {
+						return "undecodable", 0
+					}
+					return fmt.Sprintf("rip=%#x rdx=%#x", binary.LittleEndian.Uint64(bs[q:]), rdx), q + 8
+				}
 				okb := (mode == 64 && a.Base == refx86.RDX) || (mode == 32 && a.Base == refx86.EDX)
 				if !okb || a.Index != 0 || a.Disp != 0 || a.Segment != 0 {
-					return "undecodable"
+					return "undecodable", 0
 				}
 				if mode == 32 {
-					return fmt.Sprintf("eip=%#x edx=%#x", uint64(^uint32(rdx)), rdx)
+					return fmt.Sprintf("eip=%#x edx=%#x", uint64(^uint32(rdx)), rdx), off + ins.Len
 				}
-				return fmt.Sprintf("rip=%#x rdx=%#x", ^rdx, rdx)
+				return fmt.Sprintf("rip=%#x rdx=%#x", ^rdx, rdx), off + ins.Len
 			}
-			return "undecodable"
+			return "undecodable", 0
 		default:
-			return "undecodable"
+			return "undecodable", 0
 		}
 		pc = next
 		off += ins.Len
 	}
-	return "undecodable"
+	return "undecodable", 0
 }
 
 // RunA64 interprets MOVZ/MOVK/LDR/BR sequences with the reference arm64 decoder.
